@@ -1,6 +1,9 @@
 import M3d.Gen.Kernels
 import M3d.Model.Triangulate
+import M3d.Model.TriFace
 import Mathlib.Tactic.Ring
+import Mathlib.Tactic.NormNum
+import Mathlib.Tactic.LinearCombination
 import Mathlib.Tactic.FieldSimp
 import Mathlib.Algebra.Order.Field.Basic
 /-!
@@ -19,7 +22,10 @@ computes what those kernels compute, for every linear ordered field:
   `Matrix2_MulColumn` and `Coord_Sub`;
 * `projectFace_tie` — `TriangulateFace`'s chart `Coord2D{X: basis1.Dot(p1), Y: basis2.Dot(p1)}` with
   `p1 := p.Sub(polygon[0])` is the model `projectFace`;
-* `lift_tie` — `ProfileMesh`'s cap corners `XYZ(t.X, t.Y, minZ|maxZ)` are the model `lift`.
+* `lift_tie` — `ProfileMesh`'s cap corners `XYZ(t.X, t.Y, minZ|maxZ)` are the model `lift`;
+* `residual3_tie` — `TriangulateFace`'s candidate `p.Sub(polygon[0]).ProjectOut(basis1)` (generated
+  `Coord3D_ProjectOut`, which normalises its argument with `math.Sqrt`) is, multiplied by `u·u`, the
+  sqrt-free model `residual3 u w` of `M3d/Model/TriFace.lean`, for every `sqrt` with `sqrt(u·u)² = u·u ≠ 0`.
 
 An edit of one of these Go functions changes the generated text; then either the equation is still
 provable (a harmless rewrite) or this file stops compiling and the check reports the broken
@@ -93,5 +99,30 @@ theorem projectFace_tie (b1 b2 p0 : P3 K) (rest : List (P3 K)) :
 `ProfileMesh` is the model `lift` of the vertex id. -/
 theorem lift_tie (c : Nat → P2 K) (z0 z1 : K) (i : Nat) :
     g3 (lift c z0 z1 i) = model3d.XYZ (c (i / 2)).x (c (i / 2)).y (if i % 2 = 0 then z0 else z1) := rfl
+
+/-- **`residual3_tie`.**  For `u ≠ 0` and any `math.Sqrt` with `sqrt(u·u)·sqrt(u·u) = u·u`, the generated
+`w.ProjectOut(u)` (= `w − n·(n·w)`, `n = u.Scale(1/u.Norm())`) multiplied by `u·u` is the model's
+`residual3 u w = (u·u)·w − (u·w)·u`; in particular it vanishes exactly when the model's does. -/
+theorem residual3_tie [HasSqrt K] (u w : P3 K)
+    (hs : HasSqrt.sqrt (dot3 u u) * HasSqrt.sqrt (dot3 u u) = dot3 u u) (hne : dot3 u u ≠ 0) :
+    model3d.Coord3D_Scale (model3d.Coord3D_ProjectOut (g3 w) (g3 u)) (dot3 u u) = g3 (residual3 u w) := by
+  have hN : ((u.x * u.x) + (u.y * u.y)) + (u.z * u.z) = dot3 u u := by simp only [dot3]
+  have hs0 : HasSqrt.sqrt (dot3 u u) ≠ 0 := by
+    intro h0; rw [h0, mul_zero] at hs; exact hne hs.symm
+  simp only [model3d.Coord3D_ProjectOut, model3d.Coord3D_Normalize, model3d.Coord3D_Norm, model3d.Coord3D_Scale,
+    model3d.Coord3D_Sub, model3d.Coord3D_Add, model3d.Coord3D_Dot, g3, hN, residual3, scale3, sub3]
+  generalize hS : HasSqrt.sqrt (dot3 u u) = S at hs hs0
+  have h1 : (1 / S) * (1 / S) * dot3 u u = 1 := by rw [← hs]; field_simp
+  simp only [dot3] at h1 ⊢
+  congr 1
+  · linear_combination (-(u.x * (u.x * w.x + u.y * w.y + u.z * w.z))) * h1
+  · linear_combination (-(u.y * (u.x * w.x + u.y * w.y + u.z * w.z))) * h1
+  · linear_combination (-(u.z * (u.x * w.x + u.y * w.y + u.z * w.z))) * h1
+
+/-- Non-vacuity: `u = (1,2,2)` with `sqrt 9 = 3`. -/
+example : (letI : HasSqrt ℚ := ⟨fun _ => 3⟩
+    HasSqrt.sqrt (dot3 (⟨1, 2, 2⟩ : P3 ℚ) ⟨1, 2, 2⟩) * HasSqrt.sqrt (dot3 (⟨1, 2, 2⟩ : P3 ℚ) ⟨1, 2, 2⟩)
+      = dot3 (⟨1, 2, 2⟩ : P3 ℚ) ⟨1, 2, 2⟩ ∧ dot3 (⟨1, 2, 2⟩ : P3 ℚ) ⟨1, 2, 2⟩ ≠ 0) := by
+  norm_num [dot3]
 
 end M3d.KernelsTie.Triangulate
